@@ -3,7 +3,7 @@ NEXT Next
 CONSTANTS
   Methods = {"POST"}
   MaxHeaders = 2
-  NTargets = 4
+  NTargets = 3
   NQueries = 1
   NPool = 16
   NBodies = 4
